@@ -676,6 +676,13 @@ class Problem(  # type: ignore[misc]
 
         :param trajectory_constraint: The expression added to the `Problem`.
         """
+        if constraint.is_bool_constant():
+            # the result of rewriting / simplifying a constraint: `true` is trivially
+            # satisfied, `false` is recorded in constraint form
+            if constraint.is_false():
+                em = self._env.expression_manager
+                self._trajectory_constraints.append(em.Always(em.FALSE()))
+            return
         if constraint.is_and() or constraint.is_forall():
             for arg in constraint.args:
                 assert (
@@ -693,7 +700,15 @@ class Problem(  # type: ignore[misc]
                 or constraint.is_at_most_once()
                 or constraint.is_always()
             ), "trajectory constraint not in the correct form"
-        self._trajectory_constraints.append(constraint.simplify())
+        simplified = constraint.simplify()
+        if simplified.is_true():
+            # trivially satisfied: storing the constant `true` would break the form
+            # that every consumer of the trajectory constraints relies on
+            return
+        if simplified.is_false():
+            # unsatisfiable: keep it, but in constraint form
+            simplified = constraint
+        self._trajectory_constraints.append(simplified)
 
     def clear_trajectory_constraints(self):
         """Removes the trajectory_constraints."""
